@@ -55,6 +55,12 @@ or which command is being processed -/
       · have := ih ((writeB D s f 0 (bs ++ [0])).setPos f bs.length)
         simp_all
       · exact ih s
+    | report n =>
+      simp only [applyNested]
+      split
+      · have := ih (s.setPos f n)
+        simp_all
+      · exact ih s
 
 
 /-! ### helpers that leave all control fields alone (or move only a position) -/
